@@ -44,19 +44,27 @@ template <class R> struct Entry
    int i, j;
    R v;
 };
+// total orders (doubles by bit pattern: NaN-safe; both copies of an entry must be the same number bit for bit)
+inline bool valLess(double a, double b)
+{
+   uint64_t x, y;
+   memcpy(&x, &a, 8);
+   memcpy(&y, &b, 8);
+   return x < y;
+}
+inline bool valLess(const Rational& a, const Rational& b)
+{
+   return a < b;
+}
 template <class R> bool entryLess(const Entry<R>& a, const Entry<R>& b)
 {
    if(a.i != b.i) return a.i < b.i;
    if(a.j != b.j) return a.j < b.j;
-   return a.v < b.v;
+   return valLess(a.v, b.v);
 }
-inline bool same(double a, double b)
+template <class R> bool same(const R& a, const R& b)
 {
-   return memcmp(&a, &b, sizeof(double)) == 0 || a == b;
-}
-inline bool same(const Rational& a, const Rational& b)
-{
-   return a == b;
+   return !valLess(a, b) && !valLess(b, a);
 }
 
 // storage invariants of an SPxLPBase<R>, recomputed from the public accessors only
@@ -76,10 +84,10 @@ void checkLP(const SPxLPBase<R>& lp, const NameSet* rn, const NameSet* cn, const
       for(int k = 0; k < v.size(); k++)
       {
          if(v.index(k) < 0 || v.index(k) >= n) vfz::fail(w + "row vector holds a column index outside [0,nCols)");
-         if(isNaN(v.value(k))) vfz::fail(w + "NaN coefficient stored");
+         if(isNaN(v.value(k))) vfz::nanStored(w, !fmtLP);
          byRow.push_back(Entry<R> {i, v.index(k), v.value(k)});
       }
-      if(isNaN(lp.lhs(i)) || isNaN(lp.rhs(i))) vfz::fail(w + "NaN row side stored");
+      if(isNaN(lp.lhs(i)) || isNaN(lp.rhs(i))) vfz::nanStored(w, !fmtLP);
       if(lp.lhs(i) > lp.rhs(i)) vfz::count("obs.lhs_gt_rhs");
    }
    for(int j = 0; j < n; j++)
@@ -89,10 +97,10 @@ void checkLP(const SPxLPBase<R>& lp, const NameSet* rn, const NameSet* cn, const
       for(int k = 0; k < v.size(); k++)
       {
          if(v.index(k) < 0 || v.index(k) >= m) vfz::fail(w + "column vector holds a row index outside [0,nRows)");
-         if(isNaN(v.value(k))) vfz::fail(w + "NaN coefficient stored");
+         if(isNaN(v.value(k))) vfz::nanStored(w, !fmtLP);
          byCol.push_back(Entry<R> {v.index(k), j, v.value(k)});
       }
-      if(isNaN(lp.lower(j)) || isNaN(lp.upper(j)) || isNaN(lp.maxObj(j))) vfz::fail(w + "NaN bound or objective stored");
+      if(isNaN(lp.lower(j)) || isNaN(lp.upper(j)) || isNaN(lp.maxObj(j))) vfz::nanStored(w, !fmtLP);
       if(lp.lower(j) > lp.upper(j)) vfz::count("obs.lower_gt_upper");
    }
    if(rs != cs) vfz::fail(w + "row-wise and column-wise storage hold different numbers of entries");
@@ -102,7 +110,19 @@ void checkLP(const SPxLPBase<R>& lp, const NameSet* rn, const NameSet* cn, const
    for(size_t k = 0; k < byRow.size(); k++)
       if(byRow[k].i != byCol[k].i || byRow[k].j != byCol[k].j || !same(byRow[k].v, byCol[k].v))
          vfz::fail(w + "row-wise and column-wise storage do not mirror each other");
-   if(isNaN(lp.objOffset())) vfz::fail(w + "NaN objective offset");
+   for(size_t k = 1; k < byRow.size(); k++)
+      if(byRow[k].i == byRow[k - 1].i && byRow[k].j == byRow[k - 1].j)
+      {
+         // SVectorBase::isConsistent forbids it. Known finding mps-duplicate-entry: MPSreadCols appends a repeated
+         // (column,row) coefficient instead of rejecting or adding it up
+         if(!fmtLP && vfz::known("mps-duplicate-entry"))
+         {
+            vfz::count("excluded_known.mps-duplicate-entry");
+            break;
+         }
+         vfz::fail(w + "a sparse vector holds the same index twice");
+      }
+   if(isNaN(lp.objOffset())) vfz::nanStored(w, !fmtLP);
    if(rn)
    {
       if(rn->num() != m)
@@ -165,9 +185,9 @@ void one(int sel, const std::string& content, const char* tag)
       vfz::count("excluded_known.rat-exponent-overflow");
       return;
    }
-   if(std::is_same<R, Rational>::value && vfz::known("rat-zero-denominator") && vfz::hasZeroDenominator(text))
+   if(std::is_same<R, Rational>::value && vfz::known("rat-denominator-unchecked") && vfz::hasBadDenominator(text))
    {
-      vfz::count("excluded_known.rat-zero-denominator");
+      vfz::count("excluded_known.rat-denominator-unchecked");
       return;
    }
    if(!parsedAsMps && noNames && vfz::known("lpf-noname-leak"))
